@@ -586,7 +586,25 @@ def r7_recomputed_not_stale(chk: Check):
     c01.r3_cache(chk)
 
 
+def data_paths_restored(chk: Check):
+    """Data files of a saved configuration: load() / from_task_dir() hand the loader of relative paths to from_state_dict, and a serialized path is
+    rebuilt as a Path (the task observes the type it was given)"""
+    tree = chk.tree
+    for q in ("load", "from_task_dir"):
+        f = tree.func("core.serialization", q)
+        calls = [c for c in fn_calls(f.node) if tail(c) == "from_state_dict"]
+        ok = bool(calls) and all(len(c.args) >= 2 or any(k.arg == "path" for k in c.keywords) for c in calls)
+        chk.require(ok, chk.fkey(f, "hands the data loader over"), f"`{q}` builds a data loader and does not pass it to from_state_dict: a configuration saved with a data path cannot be loaded back", chk.loc(f.module, f.node))
+    op = tree.func("core.objects", "ConfigInformation._objectFromParameters")
+    sp = [c for c in fn_calls(op.node) if tail(c) == "SerializedPath" and c.args]
+    chk.min_instances(len(sp), 1, "SerializedPath rebuilt by the loader")
+    for c in sp:
+        chk.require(isinstance(c.args[0], ast.Call) and tail(c.args[0]) == "Path", chk.fkey(op, "serialized path is a Path"),
+                    f"`{src(c)[:70]}` rebuilds a data path from its text: the task receives a str where a Path was configured", chk.loc(op.module, c))
+
+
 def r8_loaders_defined(chk: Check):
+    data_paths_restored(chk)
     """Loading back must yield the graph on every path of the loaders: a local read on a path that skipped its assignment is an
     UnboundLocalError instead of a result"""
     from ..dataflow import unbound_reads
